@@ -62,11 +62,16 @@ RouteTo(ra) == IF InAny(ra, Peers["M"].unsafe) THEN {"M"}
 VARIABLES in, exp
 vars == <<in, exp>>
 
-Init == \E dir \in {"in", "out"}, who \in Senders, r \in Remotes, l \in Locals, prior \in BOOLEAN :
+\* enc: how the two addresses are written in the inner packet -- "v4": an IPv4 packet; "mapped": an IPv6 packet whose
+\* addresses are the IPv4-mapped forms ::ffff:a.b.c.d.  No certificate can hold a mapped address, so nothing is authentic
+\* in that form (the prior flow of the owner is always a genuine IPv4 one: the tuple is then tracked for the IPv4 form).
+Encs == {"v4", "mapped"}
+Init == \E dir \in {"in", "out"}, who \in Senders, r \in Remotes, l \in Locals, prior \in BOOLEAN, enc \in Encs :
           /\ (dir = "out" => who = "M")                              \* who is irrelevant for out: the route decides
-          /\ (prior => dir = "in" /\ r[3] \notin {"", who})           \* the owner of the remote address used the tuple first
-          /\ in = [dir |-> dir, who |-> who, r |-> r[1], ra |-> r[2], owner |-> r[3], l |-> l[1], la |-> l[2], prior |-> prior]
-          /\ exp = IF dir = "in"
+          /\ (prior => dir = "in" /\ r[3] # "" /\ (enc = "mapped" \/ r[3] # who))   \* the owner of the remote address used the tuple first
+          /\ in = [dir |-> dir, who |-> who, r |-> r[1], ra |-> r[2], owner |-> r[3], l |-> l[1], la |-> l[2], prior |-> prior, enc |-> enc]
+          /\ exp = IF enc = "mapped" THEN [auth |-> FALSE, to |-> {}]
+                   ELSE IF dir = "in"
                      THEN [auth |-> Authentic(Peers[who], r[2], l[2]), to |-> {}]
                      ELSE [auth |-> \E p \in RouteTo(r[2]) : Authentic(Peers[p], r[2], l[2]),
                            to |-> {p \in RouteTo(r[2]) : Authentic(Peers[p], r[2], l[2])}]
@@ -75,6 +80,7 @@ Spec == Init /\ [][Next]_vars
 
 \* sanity of the reference on this universe (checked by TLC on every vector)
 SpoofNeverAuthentic == (in.dir = "in" /\ in.owner # in.who /\ in.r # "M-unsafe") => ~exp.auth
-OwnAddressAuthentic == (in.dir = "in" /\ in.r = in.who \o "-addr" /\ in.l = "me") => exp.auth
+OwnAddressAuthentic == (in.dir = "in" /\ in.enc = "v4" /\ in.r = in.who \o "-addr" /\ in.l = "me") => exp.auth
+MappedNeverAuthentic == in.enc = "mapped" => ~exp.auth /\ exp.to = {}
 OutOnlyToOwner      == in.dir = "out" => \A p \in exp.to : p \in RouteTo(in.ra)
 =============================================================================
